@@ -72,6 +72,7 @@ type c15Env struct {
 	nfile  int
 	sthMem map[string]*configpb.SignedTreeHead
 	dev    map[string]int
+	blobs  []c15Blob
 }
 
 // c15Meta is what the harness knows about a generated config by construction.
@@ -216,6 +217,11 @@ func (e *c15Env) frozen(k int, variant int) *configpb.SignedTreeHead {
 			out.TreeHeadSignature[len(out.TreeHeadSignature)-1] ^= 1
 		}
 	}
+	if variant >= c15FrozenBase && len(sigBytes) > 2 {
+		// the valid signature under another DigitallySigned header (hash code, signature code)
+		out.TreeHeadSignature = append([]byte{}, sigBytes...)
+		out.TreeHeadSignature[0], out.TreeHeadSignature[1] = c15HeaderOf(variant)
+	}
 	e.sthMem[key] = out
 	return proto.Clone(out).(*configpb.SignedTreeHead)
 }
@@ -307,7 +313,10 @@ func (e *c15Env) mutate(cfg *configpb.LogConfig, m *c15Meta) string {
 		return "prefix"
 	case 2:
 		m.pubIdx = -1
-		switch r.Intn(6) {
+		switch r.Intn(7) {
+		case 6:
+			bl := e.c15KeyBlobs()
+			cfg.PublicKey = &keyspb.PublicKey{Der: bl[r.Intn(len(bl))].der}
 		case 0:
 			cfg.PublicKey = nil
 		case 1:
@@ -391,7 +400,11 @@ func (e *c15Env) mutate(cfg *configpb.LogConfig, m *c15Meta) string {
 		if m.pubIdx >= 0 && r.Intn(3) > 0 {
 			k = m.pubIdx
 		}
-		cfg.FrozenSth = e.frozen(k, r.Intn(11))
+		variant := r.Intn(11)
+		if r.Intn(4) == 0 {
+			variant = c15FrozenBase + r.Intn(c15NHeaderVariants())
+		}
+		cfg.FrozenSth = e.frozen(k, variant)
 		return "frozen"
 	case 14:
 		cfg.FrozenSth = nil
@@ -470,10 +483,18 @@ func c15Describe(cfg *configpb.LogConfig) c15Info {
 	var pk crypto.PublicKey
 	if cfg.PublicKey != nil {
 		var err error
-		if pk, err = x509.ParsePKIXPublicKey(cfg.PublicKey.Der); err == nil {
+		// a usable key: the parser answers without error AND hands back a key of one of its documented types (a nil key, or an
+		// algorithm identifier this library has no key type for, is not a usable key whatever the parser says)
+		p := verifkit.Guard(func() { pk, err = x509.ParsePKIXPublicKey(cfg.PublicKey.Der) })
+		if _, unsupported := c15Unsupported[string(cfg.PublicKey.Der)]; p == "" && err == nil && c15UsableKey(pk) && !unsupported {
 			pub, in.pubOK = "g", true
 		} else {
 			pub = "b"
+			if k, isEd := pk.(ed25519.PublicKey); p == "" && err == nil && isEd && len(k) != ed25519.PublicKeySize {
+				// known finding (x509 fork: no size check on Ed25519 keys): own class and tag
+				in.tags["#ed25519-size"] = true
+				fail("key-size")
+			}
 			fail("keys")
 		}
 	}
@@ -538,7 +559,10 @@ func c15Describe(cfg *configpb.LogConfig) c15Info {
 				if st, err := (&ct.GetSTHResponse{TreeSize: uint64(sth.TreeSize), Timestamp: uint64(sth.Timestamp), SHA256RootHash: sth.Sha256RootHash,
 					TreeHeadSignature: sth.TreeHeadSignature}).ToSignedTreeHead(); err == nil {
 					s = true
-					g = ver.VerifySTHSignature(*st) == nil
+					// a verifier that panics has not verified anything
+					if p := verifkit.Guard(func() { g = ver.VerifySTHSignature(*st) == nil }); p != "" {
+						g = false
+					}
 				}
 			}
 		}
@@ -720,7 +744,7 @@ func c15Short(cfg *configpb.LogConfig) string {
 		cfg.PrivateKey.Value = nil
 	}
 	if f := cfg.FrozenSth; f != nil {
-		f.Sha256RootHash, f.TreeHeadSignature = []byte(fmt.Sprintf("<%d>", len(f.Sha256RootHash))), []byte(fmt.Sprintf("<%d>", len(f.TreeHeadSignature)))
+		f.Sha256RootHash, f.TreeHeadSignature = []byte(fmt.Sprintf("<%d>", len(f.Sha256RootHash))), []byte(fmt.Sprintf("<%d:%x>", len(f.TreeHeadSignature), f.TreeHeadSignature[:min(4, len(f.TreeHeadSignature))]))
 	}
 	s := prototext.MarshalOptions{}.Format(cfg)
 	s = strings.Join(strings.Fields(s), " ")
@@ -749,6 +773,19 @@ func (e *c15Env) tline(op, tags, verdict string, wf bool) {
 		}
 	}
 	e.out.T(op+tags, verdict)
+}
+
+// failCapped reports a failure of the given class, at most 12 per class and run (verifkit lists the first 200 failures only).
+func (e *c15Env) failCapped(class, rest, detail string) {
+	if e.dev == nil {
+		e.dev = map[string]int{}
+	}
+	e.dev["F:"+class]++
+	if e.dev["F:"+class] <= 12 {
+		e.out.Fail(class+" "+rest, detail)
+	} else {
+		e.out.Count("class:failure-not-listed-again:" + class)
+	}
 }
 
 // judge compares the implementation's verdict with the property predicate.
@@ -797,6 +834,19 @@ func (e *c15Env) opValidate(cfg *configpb.LogConfig, m c15Meta) bool {
 		v, err := ValidateLogConfig(forms[w])
 		if err == nil && v == nil {
 			return "", errors.New("nil result without error")
+		}
+		if err == nil {
+			// accepted ⇒ the validated configuration holds a usable key of a supported type iff a public key is configured
+			switch {
+			case forms[w].PublicKey != nil && !c15UsableKey(v.PubKey):
+				class := "validated-key"
+				if k, isEd := v.PubKey.(ed25519.PublicKey); isEd && len(k) != ed25519.PublicKeySize {
+					class = "validated-key:ed25519-size"
+				}
+				e.failCapped(class, c15Short(cfg), fmt.Sprintf("accepted with public_key der=%s, but the validated configuration holds no usable key (PubKey = %T %v)", verifkit.Hex(forms[w].PublicKey.Der), v.PubKey, v.PubKey))
+			case forms[w].PublicKey == nil && v.PubKey != nil:
+				e.failCapped("validated-key", c15Short(cfg), fmt.Sprintf("no public_key configured, but the validated configuration holds %T", v.PubKey))
+			}
 		}
 		return "", err
 	})
@@ -1154,6 +1204,9 @@ func (e *c15Env) opSetUp(cfg *configpb.LogConfig, m c15Meta) {
 		return
 	}
 	in := c15Describe(cfg)
+	if in.tags["#ed25519-size"] {
+		return // a configuration that validation should have refused (known finding): its set-up is not specified
+	}
 	// oracle bits of set-up, by the same library calls
 	rootsOK := true
 	for _, f := range cfg.RootsPemFile {
@@ -1387,6 +1440,9 @@ func TestVerifC15(t *testing.T) {
 		cfg := &configpb.LogConfig{LogId: 1, Prefix: "log", PrivateKey: e.keys[0].priv, ExtKeyUsages: ek}
 		e.opValidate(cfg, c15Meta{-1, 0})
 	}
+	// fifth wave (zz_verif_c15w5_test.go): unsupported / unknown public-key algorithms, frozen STH signature headers
+	e.keyBlobCases()
+	e.frozenHeaderCases()
 	// the EKU filter of the validated configuration and of the instance ("Any" first / middle / last / doubled): zz_verif_c15w4_test.go
 	e.ekuCases()
 	// the binary LogConfigSet whose single entry is 35 bytes long starts with 0a 23, i.e. "\n#": read as text it is an empty
